@@ -2413,6 +2413,8 @@ class Qube(object):
             if derivs_changed or (arg is not obj):
                 if is_readonly:
                     obj = obj.copy(recursive=False)
+                elif obj is arg:
+                    obj = obj.clone(recursive=False)    # never modify the argument
                 obj.insert_derivs(new_derivs)
 
         return obj
